@@ -25,8 +25,8 @@ ASSUMPTIONS = [
     'namespace-level defaults are not generated',
 ]
 BUDGET = {
-    'quick': {'enum': ['two-level'], 'hyp': 3000, 'shards': 8},
-    'thorough': {'enum': ['two-level', 'two-level-wide'], 'hyp': 120000, 'shards': 16},
+    'quick': {'enum': ['two-level', 'dynamic'], 'hyp': 3000, 'shards': 8},
+    'thorough': {'enum': ['two-level', 'two-level-wide', 'dynamic'], 'hyp': 120000, 'shards': 16},
 }
 
 PORT_SHAPES = [
@@ -48,7 +48,37 @@ SUB_INPUTS = ['<absent>', {}, {'q': 1}, {'q': 's'}, {'q': -1, 'extra': 2}, {'ext
 P_INPUTS = ['<absent>', 1, 's', -2]
 
 
+DYN_VALUES = [
+    {'a': {'p': 1}, 'b': 's'},
+    {'b': 's', 'a': {'p': 1}},
+    {'a': {'p': 1}, 'b': 2},
+    {'a': {'p': {'q': 1}}, 'b': {'r': 's'}},
+    {'a': {'p': 's'}, 'b': 1},
+    {'a': {}, 'b': 's'},
+    {'a': 1, 'b': {'p': 1, 'q': 's'}},
+    {'a': {'p': 1, 'q': {'r': 2}, 's': None}},
+    {'a': {'p': 1}, 'b': {'q': 2}, 'c': 's'},
+    {'a': {'p': 1}},
+    {},
+]
+
+
+def _dynamic_cases():
+    """Typed dynamic namespaces with nested dictionaries whose siblings may be of the wrong type, at two levels."""
+    for vt in ('int', 'str', None):
+        for req in (True, False):
+            for value in DYN_VALUES:
+                top = pm.ns({}, required=req, dynamic=True, valid_type=vt)
+                yield {'spec': top, 'inputs': copy.deepcopy(value)}
+                sub = pm.ns({'sub': pm.ns({'q': pm.port(required=False, valid_type='int')}, required=req, dynamic=True, valid_type=vt)})
+                yield {'spec': sub, 'inputs': {'sub': copy.deepcopy(value)}}
+                yield {'spec': sub, 'inputs': {'sub': dict(copy.deepcopy(value), q=1)}}
+
+
 def enumerate_cases(tier, scope):
+    if scope == 'dynamic':
+        yield from _dynamic_cases()
+        return
     pshapes = PORT_SHAPES if scope == 'two-level-wide' else PORT_SHAPES[::3]
     qshapes = PORT_SHAPES[::2] if scope == 'two-level-wide' else PORT_SHAPES[1::5]
     for pshape in pshapes:
